@@ -146,6 +146,7 @@ func runCheck(repo, vdir, prop, tier string, verbose, updateBaseline, writeEvide
 	}
 	x.lemmaObligations(prop)
 	x.globalObligations(prop)
+	genErrors = append(genErrors, x.Errors...)
 	// keep only obligations serving this property
 	var obls []*Obligation
 	for _, ob := range x.Obls {
@@ -289,7 +290,7 @@ func runCheck(repo, vdir, prop, tier string, verbose, updateBaseline, writeEvide
 		var names []string
 		for _, n := range order {
 			g := groups[n]
-			if g.Status == "discharged" {
+			if g.Status == "discharged" && stableName(obls[g.Instances[0]].Kind) {
 				names = append(names, n)
 			}
 		}
@@ -426,4 +427,16 @@ func loadContracts(l *Loader, vdir string) (*Contracts, error) {
 		}
 	}
 	return cs, nil
+}
+
+// stableName: obligations whose name does not quote source text (contract
+// clauses, loop contracts, lemmas, frames).  Only these are pinned by the
+// baseline; site-labelled safety obligations are regenerated from whatever the
+// current code contains, so a harmless edit cannot make one "go missing".
+func stableName(kind string) bool {
+	switch kind {
+	case "post", "inv-init", "inv-keep", "variant", "lemma", "balanced", "frame":
+		return true
+	}
+	return false
 }
